@@ -375,7 +375,8 @@ func (e *Exec) applyContract(fr *Frame, ins ssa.Instruction, ctr *Contract, name
 	// havoc the frame (the allocation top first: well-formedness of havocked heaps refers to it)
 	post := st.clone()
 	if !ctr.Flags["noalloc"] {
-		old := e.top(pre)
+		// (the current top, not the one at entry: a closure applied by this call may already have allocated)
+		old := e.top(post)
 		nt := e.havoc(post, "$top", SInt)
 		e.Out.Assert("(>= " + nt + " " + old + ")")
 		e.recordWrite("$top", "")
